@@ -11,6 +11,7 @@ Variants (all tasks take one argument x; `parse` tasks take a File):
   {"k": "call", "callee": j, "shift": s, "add": b}     t_j(x + s) + b            (lazy)
   {"k": "call2", "callees": [j1, j2]}            t_j1(x) + t_j2(x + 1)          (lazy)
   {"k": "call2s", "callees": [j1, j2]}           t_j1(x) + t_j2(x)              (lazy; same argument)
+  {"k": "sub", "callee": j}                      t_j(x)[0]  (lazy; TypeError raised by the scheduler, not by a task)
   {"k": "raise_if", "mod": m, "add": b}          ValueError if x % m == 0 else x + b
   {"k": "catch", "callee": j, "add": b}          catch(t_j(x), ValueError, recover) + b, recover -> -1
   {"k": "readfile", "callee": j, "file": p}      t_j(File(paths[p])) + x   (t_j must be a parse task)
@@ -99,6 +100,10 @@ class Family:
             # call is a duplicate within the execution (answered by CSE)
             j1, j2 = v["callees"]
             return self.tasks[j1](x) + self.tasks[j2](x)
+        if k == "sub":
+            # subscripting the (int) result of the callee fails lazily, on the scheduler's side: no
+            # task function raises, yet the workflow is rejected
+            return self.tasks[v["callee"]](x)[0]
         if k == "raise_if":
             if x % v["mod"] == 0:
                 raise ValueError(f"bad {x}")
